@@ -45,6 +45,15 @@ Section Model.
     end.
   Definition poly_swap (c : list T) : list T := swap_loop (length c) [] [] c.
 
+  (* the public wrappers of include/a/poly.h: a_poly_eval(a, n, x) = n ? a_poly_eval_(a, a + n, x) : 0, likewise evar;
+     a_poly_swap(a, n): if (n > 1) a_poly_swap_(a, a + n) *)
+  Definition poly_eval_w (c : list T) (x : T) : T :=
+    match c with [] => ofZ O 0 | _ => match poly_eval c x with Some v => v | None => ofZ O 0 end end.
+  Definition poly_evar_w (c : list T) (x : T) : T :=
+    match c with [] => ofZ O 0 | _ => match poly_evar c x with Some v => v | None => ofZ O 0 end end.
+  Definition poly_swap_w (c : list T) : list T :=
+    match c with [] => c | [_] => c | _ => poly_swap c end.
+
   Definition get (d : T) (c : list T) (i : nat) : T := nth i c d.
   Definition half : T := #1 / #2.      (* (a_real)(1.0 / 2) *)
   Definition sixth : T := #1 / #6.     (* (a_real)(1.0 / 6) *)
